@@ -127,6 +127,8 @@ var dtStrings = []string{
 	"2015-08-01T12:34:56+05:30", "2015-08-01 12:34:56Z", "2015-08-01T12:34:56-04", "2015-08-01T00:00:00+00:00", "2015-08-02T00:00:00-04:00", "2015-08-01T23:59:59.999999+14:00", "2015-08-01T12:34:56.123456789+01", "2015-08-01T04:00:00Z", "2015-08-01T07:04:56Z",
 	"2015-11-01T01:30:00-04:00", "2015-11-01T01:30:00-05:00", "2015-11-01T06:30:00Z", "2015-03-08T03:30:00-04:00", "2015-03-08T01:30:00-05:00", "2015-03-08T07:30:00Z", "2015-11-01T02:30:00", "2015-03-08T03:30:00",
 	"abc", "", "2015-02-30", "12:34", "2015-08-01T12:34", "20150801",
+	// the instant of 12:34:56+05:30 again, with offsets less than an hour away from it and from each other
+	"12:04:56+05:00", "12:49:56+05:45", "07:19:56+00:15", "06:49:56-00:15", "2015-08-01T12:04:56+05:00", "2015-08-01T12:49:56+05:45",
 }
 
 // dtEast: dates and instants around the 2023 DST transitions of Australia/Sydney (and
@@ -426,6 +428,20 @@ func TestC17(t *testing.T) {
 			coh = append(coh, DTCase{A: a, B: b})
 		}
 	}
+	// one instant written with offsets a few minutes apart: values with a zone that denote the same instant are
+	// ordered by their offset, to the second - not by its hours
+	var same []DTCase
+	sameInstant := []string{"12:34:56+05:30", "12:04:56+05:00", "12:49:56+05:45", "07:19:56+00:15", "06:49:56-00:15", "07:04:56+00", "07:04:56Z", "07:05:26+00:00:30", "07:05:06+00:00:10",
+		"2015-08-01T12:34:56+05:30", "2015-08-01T12:04:56+05:00", "2015-08-01T12:49:56+05:45", "2015-08-01T07:04:56Z", "2015-08-01T07:19:56+00:15", "2015-08-01T06:49:56-00:15"}
+	for _, a := range sameInstant {
+		for _, b := range sameInstant {
+			for _, op := range cmpOps {
+				same = append(same, DTCase{Path: "$a.datetime() " + op + " $b.datetime()", A: a, B: b}, DTCase{Path: "$a.datetime() " + op + " $b.datetime()", A: a, B: b, TZ: true, Zone: "+05:30"})
+			}
+			coh = append(coh, DTCase{A: a, B: b, TZ: true, Zone: "Asia/Kolkata"}, DTCase{A: a, B: b})
+		}
+	}
+	runTable("one_instant_under_offsets_minutes_apart", "c17.datetime", same, checkDTFacts)
 	runTable("coherence_and_antisymmetry", "c17.coherence", coh, func(c DTCase) (*Violation, dtFacts) { return checkDTCoherence(c), dtFacts{class: "relation"} })
 	// zones east of UTC whose DST transitions fall before UTC midnight, and instants a fraction of a second after midnight
 	var east, eastCoh []DTCase
